@@ -4,3 +4,6 @@ package pool
 
 // yield is a no-op unless built with -tags verif.
 func yield(string) {}
+
+// selectHook is the constant 0 (no preference) unless built with -tags verif.
+func selectHook() int { return 0 }
